@@ -207,6 +207,61 @@ pub fn worker(w: &mut Worker) {
         }
     }
 
+    // family 3: "find first" shapes: a loop that returns from a later iteration, called again afterwards
+    // (a frame left by a return taken in the second iteration must not be resumed by the next call)
+    {
+        let bodies: Vec<Vec<Stmt>> = vec![
+            vec![
+                Stmt::For {
+                    site: 1,
+                    body: vec![
+                        Stmt::Emit(1),
+                        Stmt::If {
+                            conds: vec![Cond { site: 2, form: 2 }],
+                            bodies: vec![vec![Stmt::Return(Some("hit".into()))]],
+                            else_body: None,
+                        },
+                        Stmt::Emit(2),
+                    ],
+                },
+                Stmt::Return(Some("none".into())),
+            ],
+            vec![
+                Stmt::For {
+                    site: 1,
+                    body: vec![Stmt::While {
+                        cond: Cond { site: 2, form: 2 },
+                        body: vec![Stmt::Emit(3), Stmt::Return(None)],
+                    }],
+                },
+                Stmt::Emit(4),
+            ],
+        ];
+        let seqs3: Vec<Vec<CallForm>> = vec![
+            vec![CallForm::Assign, CallForm::Assign],
+            vec![CallForm::Assign, CallForm::Stmt, CallForm::Assign],
+            vec![CallForm::Cond, CallForm::Assign],
+            vec![CallForm::Stmt, CallForm::Cond],
+        ];
+        for (bi, body) in bodies.iter().enumerate() {
+            for scoped in [false, true] {
+                for (si, seq) in seqs3.iter().enumerate() {
+                    let mut main = vec![Stmt::Set("g".into(), "G".into()), Stmt::Set("x".into(), "X0".into())];
+                    for (i, f) in seq.iter().enumerate() {
+                        main.push(call(*f, 0, 200 + i as u32));
+                        main.push(Stmt::Emit(101 + i as u32));
+                    }
+                    let prog = Program {
+                        funcs: vec![Func { scoped, body: body.clone() }],
+                        main,
+                    };
+                    // array of two, no hit at the first element, hit at the second, array again in the next call
+                    run_prog(w, &rig, &prog, si % 4, tier.pick(4, 5), 14, hash64(&("find-first", bi, scoped, si)));
+                }
+            }
+        }
+    }
+
     // family 2: two functions, f1 calls f0 (nested), f0 may call itself guarded by an answer (recursion)
     let inner_bodies: Vec<Vec<Stmt>> = {
         let mut v = vec![];
@@ -331,7 +386,7 @@ pub fn crash_sig(_case: &Value, kind: &str) -> String {
     kind.to_string()
 }
 
-pub const RULE: &str = "family 1: one function (plain and <scope>) whose body is every block forest with 0..B blocks (if/elseif/else, while, for-in) with nothing, `return r1` or a bare `return` planted at every position of the body (depth-first, inside every nesting), with and without a trailing `return r9`; main sets a global and a pre-existing output variable and calls the function in every sequence of 1..2 call forms and selected triples from {statement, `x = f p`, `x = f \"q r\" s`, condition position `if f p`}. family 2: two functions where the outer one calls the inner one (as assignment, statement, in condition position, from a for body) and the inner one returns from inside for / while-in-if or calls itself guarded by an answer (also from inside a for body), all scoped/plain combinations. Every answer sequence (truth values, array lengths) with bounded deviations; each execution compared with the tree-walking interpreter with call semantics (arguments as global variables 1..n, scoped save/restore, value-less end leaves the output variable undefined). Function-body emits show ${1} and a global ${g} so argument binding and scope isolation are observable. The two corners the property leaves open are masked";
+pub const RULE: &str = "family 1: one function (plain and <scope>) whose body is every block forest with 0..B blocks (if/elseif/else, while, for-in) with nothing, `return r1` or a bare `return` planted at every position of the body (depth-first, inside every nesting), with and without a trailing `return r9`; main sets a global and a pre-existing output variable and calls the function in every sequence of 1..2 call forms and selected triples from {statement, `x = f p`, `x = f \"q r\" s`, condition position `if f p`}. family 2: two functions where the outer one calls the inner one (as assignment, statement, in condition position, from a for body) and the inner one returns from inside for / while-in-if or calls itself guarded by an answer (also from inside a for body), all scoped/plain combinations. family 3: 'find first' functions (a loop that returns from a later iteration) called two or three times in every form, explored with 4-5 deviations. Every answer sequence (truth values, array lengths) with bounded deviations; each execution compared with the tree-walking interpreter with call semantics (arguments as global variables 1..n, scoped save/restore, value-less end leaves the output variable undefined). Function-body emits show ${1} and a global ${g} so argument binding and scope isolation are observable. The two corners the property leaves open are masked";
 pub const ASSUMPTIONS: &[&str] = &["spelling of fn/return keywords rotates over their aliases and full names", "loop variables after their loop and handle names are masked in the final variables"];
 pub const EXHAUSTIVE: bool = true;
 pub const WALL_CAP_S: (u64, u64) = (55, 2700);
